@@ -9,7 +9,9 @@ From Coq Require Import List Ascii ZArith Bool.
 From CGV Require Import Base.PyBase Base.PyVal Gen.FragGen Dialect.DialectImpl Frag.NDict Frag.StripImpl Frag.FragText
      Frag.StripFacts Frag.FragProofs Frag.FragStages Frag.FragSmall Frag.RingProofs
      Gen.SmilesGen Frag.SmilesParse Frag.SmilesSpec Frag.SmilesProofs Frag.SmilesIndex Frag.SmilesRelabel Frag.SmilesPerm
-     Frag.Template Frag.TemplateProofs.
+     Frag.Template Frag.TemplateProofs Frag.TemplateFinal Frag.TemplateGraph Frag.TemplateCompose.
+From CGV Require Import Base.NxGraph Compose.CutModel Compose.CutSpecDefs.
+Local Open Scope nat_scope.
 Import ListNotations.
 
 (** The full statement
@@ -186,6 +188,51 @@ Example C13_template_nonvacuous :
     t_edges T = [(0, 1, VInt 1); (0, 2, VInt 1); (2, 3, VInt 1); (3, 4, VInt 1); (4, 0, VInt 2)].
 Proof. exact template_example. Qed.
 
+(** ------------------------------------------------------------------------------------------
+    The FINAL template and Compose's [is_template].  [fragment_template_final] (Frag/TemplateFinal.v)
+    adds to the above what the code does afterwards, as far as is_template reads it: hcount of
+    pysmiles' fill_valence (bond orders summed in half units, so aromatic atoms need no ring
+    perception: cgsmiles calls read_smiles with reinterpret_aromatic=False), the hydrogens added and
+    removed again, atomname, slash marks, the lone-atom path; compared with the implementation's
+    final templates on every run (every attribute except rs_isomer).  Included atom classes: all
+    organic-subset atoms (aliphatic and aromatic lower case) and bracket atoms; excluded by the
+    hypothesis [plain]: chirality marks (rs_isomer is rewritten by pysmiles' stereo post-processing)
+    and annotation keys that collide with fragid / fragname / bonding / ez_isomer_atoms / rs_isomer;
+    excluded by the domain: `|n` and the wildcard.  [cut_agrees] ties the cut to the token-level
+    reading of the part (as many atoms; written descriptors of atom i = the cut's descriptors of the
+    i-th atom; the cut's payload found on the node; bonds of the token graph = the cut's bonds inside
+    the part with the same orders); [part_okb] checks all hypotheses by computation. *)
+Theorem C13_template_final_of_render : forall fo name toks dc,
+  wf toks dc = true -> excluded toks dc = false -> wf_smiles toks = true ->
+  fragment_template_final fo name (render (decorate toks dc)) = template_final_spec fo name toks dc.
+Proof. exact template_final_of_render. Qed.
+Theorem C13_template_is_template_partial : forall fo C name xs toks dc clean d ez ann G T0,
+  wf toks dc = true -> excluded toks dc = false -> wf_smiles toks = true ->
+  strip_spec fo toks dc = Ok (clean, d, ez, ann) -> graph_of false toks = Ok G -> final_assemble name G d ez ann = Ok T0 ->
+  plain G ann -> cut_agrees C xs T0 d ->
+  fragment_template_final fo name (render (decorate toks dc)) = Ok T0 /\ is_template C name xs (tmpl_graph T0).
+Proof. exact template_is_template. Qed.
+Theorem C13_template_is_template_checked : forall fo C name xs toks dc, part_okb fo C name xs toks dc = true ->
+  exists T0, fragment_template_final fo name (render (decorate toks dc)) = Ok T0 /\ is_template C name xs (tmpl_graph T0).
+Proof. exact template_is_template_b. Qed.
+(** the bonds of a token graph are simple (no self bond, no two bonds between the same atoms) and
+    inside the node range; G.edges on the template graph lists each bond once, from its smaller end *)
+Theorem C13_graph_of_simple : forall ks toks G, graph_of ks toks = Ok G ->
+  simple (g_edges G) /\ (forall u v o, In (u, v, o) (g_edges G) -> (u < length (g_nodes G) /\ v < length (g_nodes G))%nat).
+Proof. exact graph_of_simple. Qed.
+Theorem C13_edges_data_tmpl : forall T, irrefl (t_edges T) ->
+  edges_data (tmpl_graph T) = map toZ3 (elist (length (t_nodes T)) (t_edges T)).
+Proof. exact edges_data_tmpl. Qed.
+Example C13_template_cut_nonvacuous :
+  wf_cutb ex_cut = true /\
+  to_string (render (decorate ex_toks_a ex_dc_a)) = "CC(=O)[$]"%string /\ to_string (render (decorate ex_toks_b ex_dc_b)) = "[$]O"%string /\
+  part_okb (fo_of_table []) ex_cut (S "A") [10; 11; 12]%Z ex_toks_a ex_dc_a = true /\
+  part_okb (fo_of_table []) ex_cut (S "B") [13]%Z ex_toks_b ex_dc_b = true /\
+  (exists T0, fragment_template_final (fo_of_table []) (S "A") (S "CC(=O)[$]") = Ok T0 /\
+     is_templateb ex_cut (S "A") [10; 11; 12]%Z (tmpl_graph T0) = true /\
+     map (aget (S "hcount")) (t_nodes T0) = [Some (VInt 3); Some (VInt 1); Some (VInt 0)]).
+Proof. exact template_example_cut. Qed.
+
 (** text level of C01, ring-digit choice: re-labelling the ring-bond markers by any map that is
     injective on the numbers (another digit, %nn for a digit) does not change the graph; partial:
     start atom and branch order are not covered here *)
@@ -271,3 +318,6 @@ Print Assumptions C01_branch_order_partial.
 Print Assumptions C01_branch_order_text_partial.
 Print Assumptions C13_template_of_render.
 Print Assumptions C13_template_nodes.
+Print Assumptions C13_template_final_of_render.
+Print Assumptions C13_template_is_template_partial.
+Print Assumptions C13_template_is_template_checked.
